@@ -3,6 +3,7 @@
    [wr_gen] / cpython_* / tracked_* are the tables regenerated from /repo's ormtypes.py and the running CPython on every run
    (Gen/Mutators.v); the statements quantify over all documents, all paths and all operation sequences. *)
 Require Import PonyV.Base.PyBase PonyV.Model.C28Tracked PonyV.Gen.Mutators PonyV.Model.C28Wrapped PonyV.Proofs.C28Proofs.
+#[local] Open Scope Z_scope.   (* (also keeps the dependency scanner of tools/vlib.py linear: the line after Require must not start with an identifier) *)
 
 (* every container reachable from the attribute value is a Tracked* instance bound to one (object, attribute), after any
    sequence of mutations at any depth, commits and re-loads in new sessions -- outside the recorded defect classes *)
